@@ -55,7 +55,7 @@ func markers(s string) map[string]int {
 }
 
 var (
-	reErrPos    = regexp.MustCompile(`^[^ ]+\.go:\d+:\d+: `)
+	reErrPos    = regexp.MustCompile(`^[^ ]+\.go:\d+(?::\d+)?: `) // go/types omits the column when it is unknown
 	reErrQuoted = regexp.MustCompile(`\b[a-z]\w*\d+\b`)
 )
 
